@@ -168,15 +168,18 @@ MUTANTS = [
     def __init__(self):
         Mapper.__init__(self)''',
      "_cache is a class attribute shared by all instances"),
-    ("c05-varargs-remover-drops-first-arg", "C05", OPT,
-     '''                       args=[arg for arg in node.args
-                          if not self.drop_args or not isinstance(arg, ast.Starred)],''',
-     '''                       args=[arg for i, arg in enumerate(node.args)
-                          if not self.drop_args or not (
-                              isinstance(arg, ast.Starred)
-                              or (i == 0 and len(node.args) > 2
-                                  and isinstance(node.args[-1], ast.Starred)))],''',
-     "_VarArgsRemover also drops the first positional argument of some calls"),
+    ("c05-inlined-key-loses-kwargs", "C05", OPT,
+     """        elif isinstance(stmt, ast.Return):
+            return stmt.value""",
+     """        elif isinstance(stmt, ast.Return):
+            v = stmt.value
+            if isinstance(v, ast.Tuple):
+                v = ast.Tuple(elts=[e for e in v.elts if not (
+                    isinstance(e, ast.Call) and getattr(e.func, "id", "") == "immutabledict")],
+                    ctx=ast.Load())
+            return v""",
+     "with inline_get_cache_key=True the inlined key expression loses its kwargs component: "
+     "only rewritten classes that are called with keyword extras are affected"),
     ("c05-inline-cache-never-stores", "C05", OPT,
      '''def _set_and_return(mapping, key, value):
     mapping[key] = value
